@@ -363,6 +363,29 @@ func bn254Subjects(r *Rng) []*subject {
 			return res
 		}})
 	}
+	// byte-slice decoders over one shared encoding (compressed and raw): the input is read-only, also for the time of the call
+	for _, cn := range []string{"bn254", "bls12-381", "secp256k1"} {
+		c := curves[cn]
+		for _, gn := range []string{"G1", "G2"} {
+			g := c.Group(gn)
+			if g == nil {
+				continue
+			}
+			pt := g.MulGen(big.NewInt(11))
+			for _, enc := range []string{"Bytes", "RawBytes"} {
+				m := pt.MethodByName(enc)
+				if !m.IsValid() {
+					continue
+				}
+				wire := c07ArrayBytes(m.Call(nil)[0])
+				subs = append(subs, &subject{name: cn + "." + gn + ".SetBytes." + enc, shared: []any{wire}, run: func(int) any {
+					q := reflect.New(g.AffT)
+					out := method(q, "SetBytes").Call([]reflect.Value{reflect.ValueOf(wire)})
+					return []any{int(out[0].Int()), out[1].IsNil(), q.Interface()}
+				}})
+			}
+		}
+	}
 	// element functions going through the big.Int scratch pool
 	var x bn254fr.Element
 	x.SetUint64(123456789)
